@@ -35,6 +35,8 @@ TRANSLATED = [
     'pyramid/util.py:hide_attrs',                                              # (inlined)
     'pyramid/tweens.py:_error_handler',
     'pyramid/tweens.py:excview_tween_factory.excview_tween',
+    'pyramid/config/__init__.py:Configurator.__init__',
+    'pyramid/config/__init__.py:Configurator.setup_registry',
     'pyramid/config/__init__.py:Configurator.begin',
     'pyramid/config/__init__.py:Configurator.end',
     'pyramid/config/__init__.py:Configurator.include',
@@ -112,6 +114,8 @@ BIND = {
     (W, '_error_handler'): {
         'request.invoke_exception_view': ('proc', (V, 'ViewMethodsMixin.invoke_exception_view')),
     },
+    (C, 'Configurator.__init__'): {'self.setup_registry': ('proc', (C, 'Configurator.setup_registry'))},
+    (C, 'Configurator.setup_registry'): dict(CFG_SCOPE),
     (C, 'Configurator.__enter__'): dict(CFG_SCOPE),
     (C, 'Configurator.__exit__'): dict(CFG_SCOPE),
     (C, 'Configurator.make_wsgi_app'): dict(CFG_SCOPE, **{'self.registry.notify': ('opaque', 'body', None)}),
@@ -144,7 +148,7 @@ BIND = {
 }
 
 # attribute / function names that denote scope operations: an unbound use is a problem
-SUSPICIOUS = {'begin', 'end', '__enter__', '__exit__', 'commit', 'closer', 'invoke_request', 'invoke_subrequest',
+SUSPICIOUS = {'setup_registry', 'begin', 'end', '__enter__', '__exit__', 'commit', 'closer', 'invoke_request', 'invoke_subrequest',
               'finish_request', 'request_context', 'route_prefix_context', 'invoke_exception_view',
               '_error_handler', 'prepare', 'get_root', 'push', 'pop', 'set', 'clear', 'RequestContext',
               '_process_finished_callbacks', '_process_response_callbacks', 'hide_attrs'}
@@ -548,6 +552,7 @@ def programs(tr):
     # manual form documented in Router.request_context: ctx.begin(); try: ... finally: ctx.end()
     P['prog_request_context_manual'] = Seq(tr.proc((T, 'RequestContext.begin')),
                                            ('TryFinally', body, tr.proc((T, 'RequestContext.end'))))
+    P['prog_cfg_init'] = tr.proc((C, 'Configurator.__init__'))
     P['prog_cfg_begin'] = tr.proc((C, 'Configurator.begin'))
     P['prog_cfg_end'] = tr.proc((C, 'Configurator.end'))
     P['prog_cfg_commit'] = tr.proc((A, 'ActionConfiguratorMixin.commit'))
